@@ -13,9 +13,9 @@
 EXTENDS Naturals, Sequences, TLC, Json
 
 ExprForms == {"const", "var", "sum", "subconst", "subvar", "subloop", "ifexpr", "min", "and", "or",
-              "call", "callkw", "pow", "quot", "neg", "statevar", "pvar", "cmp"}
+              "call", "callkw", "pow", "quot", "neg", "statevar", "pvar", "cmp", "ifnested", "ifrepeat"}
 LhsForms  == {"plain", "subconst", "subvar", "subloop", "subsum", "pvarsub", "statevar"}
-LoopForms == {"none", "zero_to_var", "var_to_var", "two_dependent"}
+LoopForms == {"none", "zero_to_var", "var_to_var", "two_dependent", "literal_then_var", "three_mixed"}
 GuardForms == {"none", "cmp", "and", "statecmp"}
 KwForms   == {"none", "var", "sum", "sub", "ifexpr"}
 TimeForms == {"t", "t_plus_dt", "var"}
